@@ -30,7 +30,7 @@ from harness.core import canon, err_kind
 
 PID = 'C19'
 TITLE = 'Re-batching conserves rows, order and column alignment'
-LEAN_MODULES = ['MlModel.Properties.C19', 'MlModel.Properties.C19Pipe', 'MlModel.Witness.C19']
+LEAN_MODULES = ['MlModel.Properties.C19', 'MlModel.Properties.C19Pipe', 'MlModel.Properties.C19Canon', 'MlModel.Witness.C19']
 TRUSTED = [
     'TreeFn._iterate is modelled as a chain of lazy iterators (Model/RebatchGen.lean: first re-batcher, map of the guarded call, '
     'iter_ignore_error, second re-batcher; = the list-level treeFn when nothing fails, C19_treefn_gen_total); tree key selection / '
